@@ -217,9 +217,28 @@ func (w *World) SK(s *big.Int) crypto.PrivateKey {
 func (w *World) PK(form map[string]int, variant int) crypto.PublicKey {
 	s := w.KeyScalar(form)
 	if s.Sign() == 0 {
-		switch variant % 3 {
+		switch variant % 6 {
 		case 0:
 			return crypto.IdentityBLSPublicKey()
+		case 3, 4: // the public key of an aggregated private key whose scalar is zero; case 4: the inputs' public keys were computed before
+			a := w.SK(w.Scalar("x1"))
+			b := w.SK(new(big.Int).Sub(ref.R, w.Scalar("x1")))
+			if variant%6 == 4 {
+				_, _ = a.PublicKey(), b.PublicKey()
+			}
+			sk, err := crypto.AggregateBLSPrivateKeys([]crypto.PrivateKey{a, b})
+			if err != nil {
+				panic(err)
+			}
+			return sk.PublicKey()
+		case 5: // decoded from the canonical identity encoding
+			id := make([]byte, 96)
+			id[0] = 0xC0
+			pk, err := crypto.DecodePublicKey(crypto.BLSBLS12381, id)
+			if err != nil {
+				panic(err)
+			}
+			return pk
 		case 1:
 			a := w.SK(w.Scalar("x1")).PublicKey()
 			b := w.SK(new(big.Int).Sub(ref.R, w.Scalar("x1"))).PublicKey()
@@ -237,9 +256,24 @@ func (w *World) PK(form map[string]int, variant int) crypto.PublicKey {
 			return pk
 		}
 	}
-	switch variant % 4 {
+	switch variant % 6 {
 	case 0:
 		return w.SK(s).PublicKey()
+	case 4, 5: // the public key of an aggregated private key; case 5: the inputs' public keys were computed before
+		a := w.Scalar("split")
+		b := new(big.Int).Mod(new(big.Int).Sub(s, a), ref.R)
+		if b.Sign() == 0 {
+			return w.SK(s).PublicKey()
+		}
+		ka, kb := w.SK(a), w.SK(b)
+		if variant%6 == 5 {
+			_, _ = ka.PublicKey(), kb.PublicKey()
+		}
+		sk, err := crypto.AggregateBLSPrivateKeys([]crypto.PrivateKey{ka, kb})
+		if err != nil {
+			panic(err)
+		}
+		return sk.PublicKey()
 	case 1:
 		pk, err := crypto.DecodePublicKey(crypto.BLSBLS12381, w.SK(s).PublicKey().Encode())
 		if err != nil {
